@@ -86,7 +86,10 @@ func runC11(c *core.Ctx) {
 						}
 					}
 					return true
-				}, isCallNamed(spec.send), append([]string{"F:(call((*rawkv.Client).send*)#2[recv] == nil)"}, spec.legit...))
+				}, isCallNamed(spec.send), append([]string{"F:(call((*rawkv.Client).send*)#2[recv] == nil)",
+					// any outcome of comparing the cursor with the requested end (the three-way result against 0, whatever the spelling)
+					"*:(call(bytes.Compare)#0 < const(0))", "*:(const(0) < call(bytes.Compare)#0)", "*:(call(bytes.Compare)#0 < const(1))", "*:(const(-1) < call(bytes.Compare)#0)",
+					"*:(const(0) == call(bytes.Compare)#0)", "*:(call(bytes.Compare)#0 == const(0))"}, spec.legit...))
 				if okk {
 					a.ok(fname(spec.fn)+" loop stops only at the end of the range / limit / last region", sc, "")
 				} else {
@@ -101,6 +104,32 @@ func runC11(c *core.Ctx) {
 			g, why := phiIncomingGuarded(sendDel, st.(*ssa.Store).Val, func(v ssa.Value) bool { return descHas(c, v, "KeyLocation.EndKey") }, []guardSpec{
 				{"len(loc.EndKey) > 0", core.PEmpty(func(v ssa.Value) bool { return descHas(c, v, "KeyLocation.EndKey") }), false},
 			})
+			if !g {
+				// the choice may be made by a private helper that returns one of its parameters: then the guard is
+				// on the helper's return of the parameter that receives the region end
+				if cl, ok := core.Strip(st.(*ssa.Store).Val).(*ssa.Call); ok && cl.Call.StaticCallee() != nil && len(cl.Call.StaticCallee().Blocks) > 0 {
+					h := cl.Call.StaticCallee()
+					for k, arg := range cl.Call.Args {
+						if !descHas(c, arg, "KeyLocation.EndKey") || k >= len(h.Params) {
+							continue
+						}
+						par := h.Params[k]
+						all, n := true, 0
+						for _, r := range returnsOf(h) {
+							if core.Strip(r.Results[0]) != ssa.Value(par) {
+								continue
+							}
+							n++
+							if okk, _ := core.Guarded(h, r, core.PEmpty(func(v ssa.Value) bool { return core.Strip(v) == ssa.Value(par) }), false); !okk {
+								all = false
+							}
+						}
+						if n > 0 && all {
+							g = true
+						}
+					}
+				}
+			}
 			a.check(g, fname(sendDel)+" region end used only when it is not +∞", st, "", "the delete range can be clamped to an unbounded (empty) region end, i.e. extended to +∞: "+why)
 		}
 	}
